@@ -190,10 +190,16 @@ class HeffProbe:
             return
         # Davidson on this micro problem
         nroots = mps.optimize_config.nroots
-        if self.test_davidson and len(want) > nroots + 1 and mps.optimize_config.algo in ("davidson", "direct"):
+        # (the solver is given a start close to the answer, as in a sweep; tiny multi-root problems are left out:
+        #  for dimensions <= its subspace limit the Davidson code returns duplicate roots, which optimize_mps
+        #  cannot reach because it diagonalises such problems directly)
+        if self.test_davidson and len(want) >= (3 if nroots == 1 else 20):
             inverse = mps.optimize_config.inverse
-            w = np.linalg.eigvalsh(want * inverse)
-            guess = [self.rng.normal(size=len(want)) for _ in range(nroots)]
+            w, vv = np.linalg.eigh(want * inverse)
+            guess = []
+            for k in range(nroots):
+                g = vv[:, k] + 0.3 * self.rng.normal(size=len(want)) / np.sqrt(len(want))
+                guess.append(g / np.linalg.norm(g))
             algo_bk = mps.optimize_config.algo
             mps.optimize_config.algo = "davidson"
             L.seed_legacy(self.rng)
@@ -209,8 +215,12 @@ class HeffProbe:
             if np.any(e < w[:len(e)] - 1e-8 * sc):
                 self.viol(f"eigh_iterative:davidson:below-exact:{tag}", dict(cidx=cidx, e=e.tolist(), exact=w[:len(e)].tolist()))
             elif np.any(np.abs(e - w[:len(e)]) > 1e-6 * sc):
-                self.viol(f"eigh_iterative:davidson:not-lowest-eigenvalues:{tag}:nroots={min(nroots, 2)}",
-                          dict(cidx=cidx, e=e.tolist(), exact=w[:len(e)].tolist(), dim=len(want)))
+                if omega is not None:
+                    # (H-omega)^2 is badly conditioned; 100 Davidson cycles need not reach 1e-6: not a violation
+                    self.run.count("H:davidson-micro-not-converged:omega")
+                else:
+                    self.viol(f"eigh_iterative:davidson:not-lowest-eigenvalues:{tag}:nroots={min(nroots, 2)}",
+                              dict(cidx=cidx, e=e.tolist(), exact=w[:len(e)].tolist(), dim=len(want)))
             self.run.count("H:davidson-micro-checked")
 
     # -- wrappers
@@ -229,11 +239,11 @@ class HeffProbe:
             w = np.linalg.eigvalsh(want * mps.optimize_config.inverse)
             ee = np.atleast_1d(np.asarray(e, dtype=float))
             tag = f"{mps.optimize_config.method}:{'omega' if omega is not None else 'plain'}"
+            # only the bound is checked here: an iterative solver that stops early is still variational
             if np.any(ee < w[:len(ee)] - 1e-8 * sc):
                 self.viol(f"eigh_iterative:in-sweep:below-exact:{tag}", dict(cidx=cidx, e=ee.tolist(), exact=w[:len(ee)].tolist()))
             elif np.any(np.abs(ee - w[:len(ee)]) > 1e-6 * sc):
-                self.viol(f"eigh_iterative:in-sweep:not-lowest-eigenvalues:{tag}",
-                          dict(cidx=cidx, e=ee.tolist(), exact=w[:len(ee)].tolist(), dim=len(want)))
+                self.run.count("H:davidson-in-sweep-not-converged")
             self.run.count("H:davidson-in-sweep-checked")
         return e, c
 
@@ -261,7 +271,7 @@ class probing:
 def gen_procedure(rng, mfull, nroots, full):
     nsw = int(rng.integers(2, 5))
     if full:
-        ms = [int(mfull * rng.choice([1, 1, 2]))] * (nsw + 2)
+        ms = [int(mfull)] * (nsw + 2)
         pcs = [float(rng.choice([0, 0.2, 0.5])) for _ in range(nsw - 1)] + [0.0, 0.0, 0.0]
     else:
         lo = max(1, nroots)
@@ -295,13 +305,14 @@ def run_chain_case(run, rng, kind, big=False, force=None):
         ofs = [OFS.ofs_s, OFS.ofs_d, OFS.ofs_ds][int(rng.integers(0, 3))]
     stacked = bool(ofs is None and not use_omega and rng.random() < 0.25)
     mfull = full_bond(tm.dims)
-    full = force.get("full", bool(rng.random() < 0.5)) or big
+    full = force.get("full", bool(rng.random() < 0.5))
     if big:
-        mfull_used = force.get("M", 16)
+        mfull_used = int(tm.dim) if full else force.get("M", 16)
         procedure = [[mfull_used, 0.3], [mfull_used, 0.0], [mfull_used, 0.0]]
-        full = False
     else:
-        procedure = gen_procedure(rng, mfull, nroots, full)
+        # "full": the bond limit is the dimension of the whole space, certainly >= every exact rank, and the
+        # start state is drawn with the same limit so that every bond space is complete
+        procedure = gen_procedure(rng, int(tm.dim) if full else mfull, nroots, full)
 
     h = tm.dense_h()
     mask = tm.sector_mask(qntot)
@@ -332,7 +343,10 @@ def run_chain_case(run, rng, kind, big=False, force=None):
     else:
         stacked = False
         mpo = Mpo(model)
-    m0 = int(rng.choice([max(2, nroots), mfull, 2 * mfull])) if not big else procedure[0][0]
+    if full or big:
+        m0 = procedure[0][0]
+    else:
+        m0 = int(rng.choice([max(2, nroots), mfull, 2 * mfull]))
     mps = L.random_mps(model, rng, qntot, m0)
     if mps is None:
         run.count("chain:rejected:Mps.random")
@@ -418,11 +432,10 @@ def run_chain_case(run, rng, kind, big=False, force=None):
         if order != list(range(n)):
             run.count("chain:ofs-reordered")
     # ---- F
-    robust_1site = method == "1site" and nroots == 1
-    if full and not big and len(e_states) == len(states) and (method == "2site" or robust_1site):
+    if full and len(e_states) == len(states):
         last = rows[-1]
         tolf = (1e-6 if algo == "davidson" else 1e-7) * sc
-        if method == "2site":
+        if True:
             if np.any(np.abs(last - bound[:len(last)]) > tolf):
                 run.violation(f"optimize_mps:full-bond:energy-not-exact:{tagc}",
                               dict(replay, reported=last.tolist(), exact=bound[:len(last)].tolist()))
@@ -439,7 +452,7 @@ def run_chain_case(run, rng, kind, big=False, force=None):
                 if np.any(np.abs(ex - es) > 1e-8 * sc):
                     run.violation(f"optimize_mps:expectation-vs-dense:{tagc}", dict(replay, expectation=ex.tolist(), dense=es.tolist()))
             run.count("F:state-energy-checked")
-        if conv and omega is not None and method == "2site":
+        if conv and omega is not None:
             # reported value is (E-omega)^2 of the closest eigenvalue; the state must be that eigenstate
             k = np.argsort((w - omega) ** 2)
             gaps = np.diff(np.sort((w - omega) ** 2))
@@ -513,7 +526,7 @@ def run_tree_case(run, rng, kind):
     for _ in range(6):
         try:
             with np.errstate(all="raise"):
-                ttns = TTNS.random(tree, qn_arg, int(rng.choice([2, 4, mfull])))
+                ttns = TTNS.random(tree, qn_arg, mfull if full else int(rng.choice([2, 4, mfull])))
             break
         except (FloatingPointError, ZeroDivisionError, ValueError, AssertionError):
             L.seed_legacy(rng)
@@ -535,7 +548,16 @@ def run_tree_case(run, rng, kind):
         e_list = tngs.optimize_ttns(ttns, ttno, procedure)
     except Exception as e:
         import traceback
-        frames = [f"{fr.name}:{(fr.line or '')[:60]}" for fr in traceback.extract_tb(e.__traceback__)[-3:]]
+        if algo == "arpack" and isinstance(e, TypeError) and "k >= N" in str(e):
+            # SciPy's Lanczos refuses 1- and 2-dimensional local problems: a documented restriction of that solver
+            run.count("tree:rejected:arpack-local-dimension<=k")
+            return None
+        tb = traceback.extract_tb(e.__traceback__)
+        frames = [f"{fr.name}:{(fr.line or '')[:60]}" for fr in tb[-3:]]
+        if isinstance(e, ValueError) and "cannot reshape" in str(e) and tb[-1].name == "update_2site" and tm.qn_size > 1:
+            run.violation("optimize_ttns:update_2site:reshape-fails:multi-component-labels",
+                          dict(replay, error=repr(e)[:300], frames=frames))
+            return None
         run.violation(f"optimize_ttns:raises:{type(e).__name__}:{algo}", dict(replay, error=repr(e)[:300], frames=frames))
         return None
     finally:
@@ -547,7 +569,12 @@ def run_tree_case(run, rng, kind):
         run.violation(f"optimize_ttns:energy-below-exact:{tag}", dict(replay, lowest_reported=float(allE.min()), exact=float(w[0])))
     psi = np.asarray(ttns.todense(basis_list)).ravel()
     nrm = float(np.linalg.norm(psi))
-    if abs(nrm - 1) > 1e-8:
+    if not full:
+        # optimize_ttns returns energies only; the state it leaves behind is truncated without being rescaled
+        # (norm < 1), so only the sector is checked here
+        if nrm < 1e-6 or absmax(psi[~mask]) > 1e-9 * max(nrm, 1e-300) + 1e-12:
+            run.violation(f"optimize_ttns:state-sector:{tag}", dict(replay, norm=nrm, leak=absmax(psi[~mask])))
+    elif abs(nrm - 1) > 1e-8:
         run.violation(f"optimize_ttns:state-norm:{tag}", dict(replay, norm=nrm))
     else:
         leak = absmax(psi[~mask])
@@ -587,14 +614,17 @@ def search(run, rng, quick):
         if key is not None:
             distinct.add(key)
     # systems large enough for the iterative eigensolver to be chosen by single_sweep itself
-    bigs = [("spin-u1", dict(method="2site", algo="davidson", nroots=1, omega=False, ofs=False, M=16)),
-            ("eph", dict(method="2site", algo="davidson", nroots=2, omega=False, ofs=False, M=12))]
+    bigs = [("spin-u1", dict(method="2site", algo="davidson", nroots=1, omega=False, ofs=False, M=16, full=False)),
+            ("eph", dict(method="2site", algo="davidson", nroots=2, omega=False, ofs=False, M=12, full=False)),
+            ("spin-u1", dict(method="2site", algo="davidson", nroots=2, omega=False, ofs=False, full=True))]
     if not quick:
-        bigs += [("spin-u1", dict(method="1site", algo="davidson", nroots=1, omega=False, ofs=False, M=32)),
-                 ("qc", dict(method="2site", algo="davidson", nroots=1, omega=False, ofs=False, M=16)),
-                 ("spin-u1", dict(method="2site", algo="davidson", nroots=3, omega=False, ofs=False, M=16)),
-                 ("eph", dict(method="2site", algo="davidson", nroots=1, omega=True, ofs=False, M=12)),
-                 ("spin", dict(method="2site", algo="davidson", nroots=1, omega=False, ofs=False, M=16))] * 2
+        bigs += [("spin-u1", dict(method="1site", algo="davidson", nroots=1, omega=False, ofs=False, M=32, full=False)),
+                 ("qc", dict(method="2site", algo="davidson", nroots=1, omega=False, ofs=False, M=16, full=False)),
+                 ("spin-u1", dict(method="2site", algo="davidson", nroots=3, omega=False, ofs=False, M=16, full=False)),
+                 ("eph", dict(method="2site", algo="davidson", nroots=1, omega=True, ofs=False, M=12, full=False)),
+                 ("spin-u1", dict(method="1site", algo="davidson", nroots=1, omega=False, ofs=False, full=True)),
+                 ("qc", dict(method="2site", algo="davidson", nroots=2, omega=False, ofs=False, full=True)),
+                 ("spin", dict(method="2site", algo="davidson", nroots=1, omega=False, ofs=False, M=16, full=False))] * 2
     for kind, force in bigs:
         key = run_chain_case(run, rng, kind, big=True, force=force)
         evals += 1
